@@ -1,0 +1,107 @@
+//! Verification hooks.  Compiled only with `--cfg httparse_verif`; without it
+//! this file is not part of the crate.  Nothing here sits on a result path:
+//! the hooks only record what the cursor type and the scanners were asked to do.
+#![allow(missing_docs, dead_code, clippy::missing_safety_doc, clippy::undocumented_unsafe_blocks)]
+
+/// Operation codes recorded by `op`.
+pub const OP_NEW: u8 = 0;
+pub const OP_PEEK: u8 = 1;
+pub const OP_PEEK_AHEAD: u8 = 2;
+pub const OP_PEEK_N: u8 = 3;
+pub const OP_ADVANCE: u8 = 4;
+pub const OP_SLICE: u8 = 5;
+pub const OP_SLICE_SKIP: u8 = 6;
+pub const OP_COMMIT: u8 = 7;
+pub const OP_SET_CURSOR: u8 = 8;
+pub const OP_NEXT: u8 = 9;
+pub const OP_LOAD: u8 = 11;
+
+/// One cursor operation: code, argument, and the cursor state when it was requested.
+#[derive(Clone, Copy, Debug, Default, PartialEq, Eq)]
+pub struct Op {
+    pub code: u8,
+    pub arg: usize,
+    pub start: usize,
+    pub cursor: usize,
+    pub end: usize,
+}
+
+/// Per-thread work counters.
+#[derive(Clone, Copy, Debug, Default, PartialEq, Eq)]
+pub struct Counters {
+    pub cursors: u64,
+    pub travel: u64,
+    pub back: u64,
+    pub peeks: u64,
+    pub peek_bytes: u64,
+    pub loads: u64,
+    pub ops: u64,
+}
+
+#[cfg(feature = "std")]
+mod imp {
+    use super::{Counters, Op};
+    use std::cell::{Cell, RefCell};
+
+    thread_local! {
+        static COUNTERS: Cell<Counters> = Cell::new(Counters { cursors: 0, travel: 0, back: 0, peeks: 0, peek_bytes: 0, loads: 0, ops: 0 });
+        static LOG_ON: Cell<bool> = Cell::new(false);
+        static LOG: RefCell<Vec<Op>> = RefCell::new(Vec::new());
+        static HARVEST_ON: Cell<bool> = Cell::new(false);
+        static HARVEST: RefCell<Vec<Vec<u8>>> = RefCell::new(Vec::new());
+        static RACE: RefCell<Vec<(u8, u8)>> = RefCell::new(Vec::new());
+    }
+
+    #[inline(never)]
+    pub fn op(code: u8, arg: usize, start: usize, cursor: usize, end: usize) {
+        COUNTERS.with(|c| {
+            let mut v = c.get();
+            v.ops += 1;
+            match code {
+                super::OP_NEW => v.cursors += 1,
+                super::OP_PEEK | super::OP_PEEK_AHEAD => { v.peeks += 1; v.peek_bytes += 1 }
+                super::OP_PEEK_N => { v.peeks += 1; v.peek_bytes += arg as u64 }
+                super::OP_LOAD => { v.loads += 1; v.peek_bytes += arg as u64 }
+                super::OP_ADVANCE => v.travel += arg as u64,
+                super::OP_SET_CURSOR => {
+                    if arg < cursor { v.back += 1 } else { v.travel += (arg - cursor) as u64 }
+                }
+                _ => {}
+            }
+            c.set(v);
+        });
+        if LOG_ON.with(|l| l.get()) {
+            LOG.with(|l| l.borrow_mut().push(Op { code, arg, start, cursor, end }));
+        }
+    }
+
+    pub fn harvest(buf: &[u8]) {
+        if HARVEST_ON.with(|h| h.get()) {
+            HARVEST.with(|h| h.borrow_mut().push(buf.to_vec()));
+        }
+    }
+
+    pub fn race(what: u8, value: u8) {
+        RACE.with(|r| r.borrow_mut().push((what, value)));
+    }
+
+    pub fn reset_counters() { COUNTERS.with(|c| c.set(Counters::default())) }
+    pub fn counters() -> Counters { COUNTERS.with(|c| c.get()) }
+    pub fn log_enable(on: bool) { LOG_ON.with(|l| l.set(on)) }
+    pub fn take_log() -> Vec<Op> { LOG.with(|l| core::mem::take(&mut *l.borrow_mut())) }
+    pub fn harvest_enable(on: bool) { HARVEST_ON.with(|h| h.set(on)) }
+    pub fn take_harvest() -> Vec<Vec<u8>> { HARVEST.with(|h| core::mem::take(&mut *h.borrow_mut())) }
+    pub fn take_race() -> Vec<(u8, u8)> { RACE.with(|r| core::mem::take(&mut *r.borrow_mut())) }
+}
+
+#[cfg(not(feature = "std"))]
+mod imp {
+    #[inline(always)]
+    pub fn op(_code: u8, _arg: usize, _start: usize, _cursor: usize, _end: usize) {}
+    #[inline(always)]
+    pub fn harvest(_buf: &[u8]) {}
+    #[inline(always)]
+    pub fn race(_what: u8, _value: u8) {}
+}
+
+pub use self::imp::*;
